@@ -956,8 +956,20 @@ def check_order_independence(ctx):
                           f'{res["reverse"][label]} in the other order')
 
 
+def check_rule_history(ctx):
+    from harness.history import check_mapping_history
+    from icalendar.prop import vRecur
+    rules = [dict(freq='DAILY', count=3, byhour=[9, 17], interval=2), dict(freq='WEEKLY', byday=['MO', 'WE'], wkst='SU', until=None),
+             dict(freq='YEARLY', bymonth=[3, 4], bymonthday=[-1], count=5)]
+    for r in rules:
+        r = {k: v for k, v in r.items() if v is not None}
+        check_mapping_history(ctx, 'vRecur', lambda r=r: vRecur(**{k: (list(v) if isinstance(v, list) else v) for k, v in r.items()}),
+                              lambda m: m.to_ical(), {'rule': {k: str(v) for k, v in r.items()}})
+
+
 def oracle(ctx):
     check_decode_is_fresh(ctx)
+    check_rule_history(ctx)
     check_order_independence(ctx)
     n = 0
     for parts in all_rules(ctx):
